@@ -1,27 +1,39 @@
 /-
 C10 — interleaving machine for `AsyncProtocol.get_device_entry` (protocol.py) and its
-callers, after fix 9a3d4ee (asyncio.Lock around check – create – publish).
+callers, after fix 9a3d4ee (ONE asyncio.Lock around check – create – publish, for all
+addresses).
 
-Callers are numbered by `Nat`; `kind j` says whether caller `j` is
-  * `entry`: a frame consumer that took a frame from the address off the read queue and runs
+Callers are numbered by `Nat`; `who j` describes caller `j`:
+  * `entry` at address `a`: a frame consumer that took a frame from address `a` off the read
+    queue and runs
         device = await self.get_device_entry(frame.sender); device.handle_frame(frame)
     (one caller per frame; a consumer task that handles several frames one after the other
     is several callers that never overlap — the machine allows every overlap, so it
     over-approximates every number of consumer tasks), or
-  * `get`: a user's `await protocol.get("ecomax")` (EventManager.get).
+  * `get` at address `a`: a user's `await protocol.get(<name of a>)` (EventManager.get).
 
-`step lk kind s i` = "caller i makes its next move if it is enabled, otherwise nothing
-happens"; an interleaving (schedule) is a list of caller numbers.  `lk = true` is the code
-as it is now, `lk = false` the same code without the lock (kept to show that the model can
-tell the difference).
+Any number of addresses share the one lock and the one counter of created objects; each has
+its own entry `self.data[name]`.  `creatable a = false` models an address for which
+`PhysicalDevice.create` raises (no device class: ECONET, ALL): the lock is released by
+`async with`, the frame is dropped (contained by the consumer, C09), nothing is published.
 
-Device objects are numbered in creation order (0, 1, …).
+`step lk who creatable s i` = "caller i makes its next move if it is enabled, otherwise
+nothing happens"; an interleaving (schedule) is a list of caller numbers.  `lk = true` is the
+code as it is now, `lk = false` the same code without the lock (kept to show that the model
+can tell the difference).
+
+Device objects are numbered in creation order (0, 1, …), across addresses.
 -/
 namespace PlumVerif.Entry
 
 inductive Kind
   | entry
   | get
+deriving Repr, DecidableEq
+
+structure Caller where
+  kind : Kind
+  addr : Nat
 deriving Repr, DecidableEq
 
 /-- program counter of one caller -/
@@ -31,76 +43,101 @@ inductive PC
   | creating             -- entry: inside the lock, saw no entry, awaiting the thread-pool class loading
   | publishing (d : Nat) -- entry: device d built, set-up task started, awaiting `dispatch(name, d)`
   | done (d : Nat)       -- entry: got d back from get_device_entry and handed its frame to d
+  | failed               -- entry: `PhysicalDevice.create` raised; the frame is dropped
   | gwait                -- get: no entry yet, suspended on the event
   | got (d : Nat)        -- get: returned d
 deriving Repr, DecidableEq
 
 structure St where
   pc : Nat → PC
-  lock : Option Nat            -- holder of `_entry_lock`
-  published : Option Nat       -- `self.data[name]`
-  created : Nat                -- device objects created so far
-  setups : Nat                 -- `device_setup_task`s started so far
-  dispatched : List Nat        -- every value dispatched for the name (most recent first)
-  handled : List (Nat × Nat)   -- (caller = frame, device that handled it), most recent first
+  lock : Option Nat               -- holder of `_entry_lock`
+  published : Nat → Option Nat    -- per address: `self.data[name]`
+  created : Nat                   -- device objects created so far (all addresses)
+  createdFor : Nat → Nat          -- … per address
+  setups : Nat                    -- `device_setup_task`s started so far (all addresses)
+  setupsFor : Nat → Nat           -- `device_setup_task`s started, per address
+  dispatched : List (Nat × Nat)   -- every (address, value) dispatched for an address name, most recent first
+  handled : List (Nat × Nat)      -- (caller = frame, device that handled it), most recent first
 
-def upd (f : Nat → PC) (i : Nat) (v : PC) : Nat → PC := fun j => if j = i then v else f j
+def upd {α : Type} (f : Nat → α) (i : Nat) (v : α) : Nat → α := fun j => if j = i then v else f j
 
 def init : St :=
-  { pc := fun _ => .start, lock := none, published := none, created := 0, setups := 0,
-    dispatched := [], handled := [] }
+  { pc := fun _ => .start, lock := none, published := fun _ => none, created := 0, createdFor := fun _ => 0, setups := 0,
+    setupsFor := fun _ => 0, dispatched := [], handled := [] }
 
 /-- caller `i` returns from `get_device_entry` with the current entry and handles its frame -/
 def finish (s : St) (i d : Nat) : St :=
   { s with pc := upd s.pc i (.done d), handled := (i, d) :: s.handled }
 
-def step (lk : Bool) (kind : Nat → Kind) (s : St) (i : Nat) : St :=
+def step (lk : Bool) (who : Nat → Caller) (creatable : Nat → Bool) (s : St) (i : Nat) : St :=
+  let a := (who i).addr
   match s.pc i with
   | .start =>
-    match kind i with
+    match (who i).kind with
     | .entry =>
       if lk ∧ s.lock.isSome then s                       -- blocked on the lock
       else
-        match s.published with
+        match s.published a with
         | some d => finish s i d                         -- (acquire,) see the entry, (release,) handle
         | none =>                                        -- (acquire,) no entry: start class loading
           { s with pc := upd s.pc i .creating, lock := if lk then some i else s.lock }
     | .get =>
-      match s.published with
+      match s.published a with
       | some d => { s with pc := upd s.pc i (.got d) }   -- value present: returns at once
       | none => { s with pc := upd s.pc i .gwait }
   | .creating =>
-    -- the harness released the import: build the device, `dispatch_nowait(connected)`,
-    -- start the set-up task, enter `await self.dispatch(name, device)`
-    { s with pc := upd s.pc i (.publishing s.created), created := s.created + 1, setups := s.setups + 1 }
+    if creatable a then
+      -- the harness released the import: build the device, `dispatch_nowait(connected)`,
+      -- start the set-up task, enter `await self.dispatch(name, device)`
+      { s with pc := upd s.pc i (.publishing s.created), created := s.created + 1, setups := s.setups + 1,
+               createdFor := upd s.createdFor a (s.createdFor a + 1),
+               setupsFor := upd s.setupsFor a (s.setupsFor a + 1) }
+    else
+      -- the import raised: `async with` releases the lock, the exception reaches the consumer
+      { s with pc := upd s.pc i .failed, lock := if lk then none else s.lock }
   | .publishing d =>
     -- callbacks done: `self.data[name] = d`, wake waiters, release the lock,
     -- `return self.data[name]`, `handle_frame`
-    { s with pc := upd s.pc i (.done d), published := some d, dispatched := d :: s.dispatched,
+    { s with pc := upd s.pc i (.done d), published := upd s.published a (some d),
+             dispatched := (a, d) :: s.dispatched,
              lock := if lk then none else s.lock, handled := (i, d) :: s.handled }
   | .done _ => s
+  | .failed => s
   | .gwait =>
-    match s.published with
+    match s.published a with
     | some d => { s with pc := upd s.pc i (.got d) }     -- woken: `return self.data[name]`
     | none => s
   | .got _ => s
 
-def run (lk : Bool) (kind : Nat → Kind) (s : St) : List Nat → St
+def run (lk : Bool) (who : Nat → Caller) (creatable : Nat → Bool) (s : St) : List Nat → St
   | [] => s
-  | i :: is => run lk kind (step lk kind s i) is
+  | i :: is => run lk who creatable (step lk who creatable s i) is
 
 /-! ### replay of a harness schedule (external events, each followed by quiescence) -/
 
-/-- external events of the harness: `feed m` = m more frames from the address arrive,
-`release` = the oldest pending device-class import completes, `get` = a user calls get() -/
+/-- external events of the harness: `feed a m` = m more frames from address `a` arrive,
+`release` = the oldest pending device-class import completes (or raises, for an address
+without a device class), `get a` = a user calls get() for the name of address `a` -/
 inductive Ev
-  | feed (m : Nat)
+  | feed (a m : Nat)
   | release
-  | get
+  | get (a : Nat)
 deriving Repr, DecidableEq
 
-/-- in the replay entry callers are the even numbers (frame f = caller 2f), get callers the odd ones -/
-def parity (j : Nat) : Kind := if j % 2 = 0 then .entry else .get
+/-- addresses of the frames / of the get() calls an event list brings, in order -/
+def frameAddrs : List Ev → List Nat
+  | [] => []
+  | .feed a m :: es => List.replicate m a ++ frameAddrs es
+  | _ :: es => frameAddrs es
+
+def getAddrs : List Ev → List Nat
+  | [] => []
+  | .get a :: es => a :: getAddrs es
+  | _ :: es => getAddrs es
+
+/-- in the replay frame f is caller 2f (an entry caller), get() call g is caller 2g+1 -/
+def whoPar (fa ga : List Nat) (j : Nat) : Caller :=
+  if j % 2 = 0 then ⟨.entry, fa.getD (j / 2) 0⟩ else ⟨.get, ga.getD (j / 2) 0⟩
 
 structure Replay where
   st : St
@@ -116,54 +153,69 @@ def isCreating : PC → Bool
   | _ => false
 
 /-- one pass of the event loop: every caller that is not waiting for the environment moves -/
-def pass (lk : Bool) (r : Replay) : Replay :=
+def pass (lk : Bool) (who : Nat → Caller) (cr : Nat → Bool) (r : Replay) : Replay :=
   (callers r).foldl (fun r j =>
     if isCreating (r.st.pc j) then r
-    else { r with st := step lk parity r.st j, sched := j :: r.sched }) r
+    else { r with st := step lk who cr r.st j, sched := j :: r.sched }) r
 
-/-- run to quiescence (three passes are enough; further passes would only stutter) -/
-def settle (lk : Bool) (r : Replay) : Replay := pass lk (pass lk (pass lk r))
+/-- nothing but a release can change anything: no caller other than a creating one can move -/
+def quiet (lk : Bool) (who : Nat → Caller) (cr : Nat → Bool) (r : Replay) : Bool :=
+  (callers r).all fun j =>
+    isCreating (r.st.pc j) || decide ((step lk who cr r.st j).pc j = r.st.pc j)
 
-def applyEv (lk : Bool) (r : Replay) : Ev → Option Replay
-  | .feed m => some (settle lk { r with frames := r.frames + m })
-  | .get => some (settle lk { r with gets := r.gets + 1 })
+/-- run to quiescence: passes until a pass finds nothing to do (`fuel` bounds them; two passes
+are enough after a release, one after new callers; the replay rejects a schedule on which
+the bound is hit) -/
+def settle (lk : Bool) (who : Nat → Caller) (cr : Nat → Bool) : Nat → Replay → Option Replay
+  | 0, r => if quiet lk who cr r then some r else none
+  | fuel + 1, r => if quiet lk who cr r then some r else settle lk who cr fuel (pass lk who cr r)
+
+def settleFuel : Nat := 4
+
+def applyEv (lk : Bool) (who : Nat → Caller) (cr : Nat → Bool) (r : Replay) : Ev → Option Replay
+  | .feed _ m => settle lk who cr settleFuel { r with frames := r.frames + m }
+  | .get _ => settle lk who cr settleFuel { r with gets := r.gets + 1 }
   | .release =>
     match (callers r).find? (fun j => isCreating (r.st.pc j)) with
-    | some j => some (settle lk { r with st := step lk parity r.st j, sched := j :: r.sched })
+    | some j => settle lk who cr settleFuel { r with st := step lk who cr r.st j, sched := j :: r.sched }
     | none => none        -- nothing to release: the schedule is not accepted
-
-/-- what the harness can see of a state -/
-structure Snap where
-  held : Nat                    -- device-class imports pending
-  created : Nat
-  setups : Nat
-  published : Option Nat
-  dispatched : List Nat         -- oldest first
-  handled : List (Nat × Nat)    -- (frame index, device), oldest first
-  gets : List (Option Nat)      -- per get() call: none = still waiting
-deriving Repr, DecidableEq
 
 def getRes : PC → Option Nat
   | .got d => some d
   | _ => none
 
+/-- what the harness can see of a state -/
+structure Snap where
+  held : Nat                       -- device-class imports pending
+  created : Nat                    -- device objects created
+  setups : Nat                     -- set-up tasks started
+  published : List (Nat × Nat)     -- (address, object): the announced pairs that are the current entry of their address
+  dispatched : List (Nat × Nat)    -- (address, object) announced, oldest first
+  handled : List (Nat × Nat)       -- (frame index, object), oldest first
+  gets : List (Option Nat)         -- per get() call, in call order: none = still waiting
+deriving Repr, DecidableEq
+
 def observe (r : Replay) : Snap :=
   { held := ((callers r).filter fun j => isCreating (r.st.pc j)).length
     created := r.st.created
     setups := r.st.setups
-    published := r.st.published
+    published := r.st.dispatched.reverse.filter fun p => r.st.published p.1 == some p.2
     dispatched := r.st.dispatched.reverse
-    handled := (r.st.handled.reverse.map fun p => (p.1 / 2, p.2))
+    handled := r.st.handled.reverse.map fun p => (p.1 / 2, p.2)
     gets := (List.range r.gets).map fun g => getRes (r.st.pc (2 * g + 1)) }
 
 def replay0 : Replay := { st := init, frames := 0, gets := 0, sched := [] }
 
-/-- snapshots after each event; `none` marks the first event the machine does not accept -/
-def replay (lk : Bool) : Replay → List Ev → List (Option Snap)
+def replayFrom (lk : Bool) (who : Nat → Caller) (cr : Nat → Bool) :
+    Replay → List Ev → List (Option Snap)
   | _, [] => []
   | r, e :: es =>
-    match applyEv lk r e with
-    | some r' => some (observe r') :: replay lk r' es
+    match applyEv lk who cr r e with
+    | some r' => some (observe r') :: replayFrom lk who cr r' es
     | none => [none]
+
+/-- snapshots after each event; `none` marks the first event the machine does not accept -/
+def replay (lk : Bool) (cr : Nat → Bool) (evs : List Ev) : List (Option Snap) :=
+  replayFrom lk (whoPar (frameAddrs evs) (getAddrs evs)) cr replay0 evs
 
 end PlumVerif.Entry
